@@ -371,5 +371,44 @@ def fill(claim, na):
         "Trusted: SAM v1 operation table; idiom tables in sa/props/C11.py.",
         "DESIGN.md section 2, C11",
     )
-    for p in ["C15", "C16"]:
-        na(p, PENDING)
+    claim(
+        "C15",
+        "canonical dot/cross expression trees and homogeneity degrees (angle, dihedral), linear forms "
+        "(displacement sign, lattice shifts), enumeration of literal image loops, CFG dominance of the "
+        "fraction wrap, exact polynomial identities modulo sin^2+cos^2=1 for literal rotation matrices, "
+        "parameter-use and pairing rules (custom ast analysis)",
+        "Decides the structural clauses of the geometry/box/transform code: index_* forward to their "
+        "sibling with its arity and column i feeds parameter i, a wrong column count is refused and a "
+        "non-periodic call drops the box; displacement is v2 - v1 on every branch; distance, angle and "
+        "dihedral are the textbook dot/cross expressions with exactly the normalisations that make "
+        "them scale-free and every displacement is taken under the caller's box; the backbone table is "
+        "the IUPAC one; the wrap into [0,1) dominates both image helpers, ranks 1-3 are dispatched and "
+        "others refused, orthogonal boxes use the 0.5 threshold, the triclinic candidates contain "
+        "{-1,0}^3 as integer combinations of box rows and the argmin is taken; fraction/coord "
+        "conversions use box and its inverse on the same side; repeat_box(_coord) produce as many "
+        "copies as indices (cubic identity) and no public parameter is ignored (one defect fixed); "
+        "remove_pbc moves molecules by (wrapped centre - centre); the literal rotation matrices are "
+        "orthonormal with determinant +1, fix their axis, are counter-clockwise and are composed in the "
+        "documented order. Not decided: numerical accuracy, minimality of the triclinic image as a "
+        "value statement, bond-graph behaviour of remove_pbc.",
+        "Trusted: numpy matmul/cross/arccos/arctan2/argmin semantics.",
+        "DESIGN.md section 2, C15",
+    )
+    claim(
+        "C16",
+        "operation-order agreement between apply() and the as_matrix() product, role-provenance "
+        "dataflow (fixed/mobile) over superimpose.py, covariance orientation and CFG dominance of the "
+        "reflection correction, anchor/transform consistency of the outlier loop (custom ast analysis)",
+        "Decides the structural clauses of superimposition: as_matrix multiplies the factors of apply() "
+        "in reverse order with rotation in the 3x3 block and translations in the last column, matching "
+        "the column-vector convention of _multi_matmul; apply refuses a model-count mismatch, works on "
+        "a copy and restores the input shape; every value named fixed*/mobile* derives from that "
+        "parameter only and every call passes fixed data to fixed parameters; the transformation is "
+        "(-mobile centroid, Kabsch rotation, +fixed centroid) applied to the mobile structure with one "
+        "mask for both; the covariance is fixed x mobile, rotation = U Vh, and the last singular "
+        "direction is flipped where det(U)det(Vh) < 0 before the product; the outlier variant reports "
+        "the mask its returned transformation was fitted on; anchor pair columns are (fixed, mobile). "
+        "Not decided: optimality and float32 accuracy as value statements, heuristics' quality.",
+        "Trusted: numpy.linalg.svd returns (U, S, Vh); align_optimal puts its first sequence in trace column 0.",
+        "DESIGN.md section 2, C16",
+    )
